@@ -355,7 +355,11 @@ func runS3Hist(args []string) {
 						if l := s3hRouteMaybeRop(g); l != "" {
 							c.exec(l)
 						}
-						c.exec(s3hRouteTweak(g, g.next()))
+						line := s3hRouteTweak(g, g.next())
+						if l := s3hRouteMaybeFault(g, line); l != "" { // a part-store fault for this transition / copy
+							c.exec(l)
+						}
+						c.exec(line)
 						continue
 					}
 					c.exec(g.next())
